@@ -60,7 +60,8 @@ type c15Special struct {
 
 var c15Strings = []string{"", "a", " a ", "a: b", "- x", "-", "#c", "'", "\"", "null", "Null", "NULL", "~", "true", "false", "yes", "no", "on", "off", "1e3", "0x1F", "0o17", "1_000", "12", "1.5",
 	".inf", "-.inf", ".nan", "2020-01-01", "multi\nline", "trail\n", "\nlead", "tab\t", "\ttab", "a\tb", "a\r\nb", "\r", "é✓😀", "\u0085", " ", "{a}", "[a]", "a, b", "&a", "*a", "!a", "|", ">", "%a", "@a", "`a",
-	"? a", ": a", "a #b", "a:b", "a :b", "\\", "\\n", "---", "...", "<<", "=", "y", "N", strings.Repeat("long text ", 30)}
+	"? a", ": a", "a #b", "a:b", "a :b", "\\", "\\n", "---", "...", "<<", "=", "y", "N", strings.Repeat("long text ", 30),
+	" first\n second", "  indented first\nline", "line\n  indented second", "a\n\nb", "\n\n", "x\n", "a\n b\n  c\n", "- item\n- item", "key: v\nother: w"}
 
 var c15Values = []float64{1, -1.5, 0.1, 1e-4, 1e-7, 5e-324, 1e5, 1e6, 2e6, 1234567.25, 1e20, 1e21, 123456789012345678, math.MaxFloat64, math.Inf(1), math.Inf(-1), 1e-5, 3e8, 1100000}
 
